@@ -134,7 +134,9 @@ func (w *World) Msg(name string) MsgDef {
 	}
 	// short, empty and long tags: tag || signature suite must reach the KMAC key whole, also beyond one or two 168-byte blocks
 	tags := []string{"", "t", "verif-tag", "BLS_SIG_", "another application tag with a long name ............................................",
-		long(121), long(130), long(168), long(200), long(340)}
+		long(121), long(130), long(168), long(200), long(340),
+		// tags that end with (parts of) the ciphersuite strings the library appends itself
+		SigSuite, "app-" + SigSuite, "BLS_POP_BLS12381G1_XOF:KMAC128_SSWU_RO_POP_", "x" + "BLS12381G1_XOF:KMAC128_SSWU_RO_POP_", "tag-POP_", long(30) + SigSuite + SigSuite}
 	lens := []int{0, 1, 31, 32, 33, 100, 1000, 10000}
 	m := MsgDef{Tag: tags[w.Rng.Intn(len(tags))], Data: make([]byte, lens[w.Rng.Intn(len(lens))])}
 	w.Rng.Read(m.Data)
@@ -144,6 +146,20 @@ func (w *World) Msg(name string) MsgDef {
 	return m
 }
 
+// prefixHasher: a 128-byte hasher all of whose outputs share their first 64 bytes (the first field element of hash_to_field)
+// and differ in the rest
+type prefixHasher struct{ customHasher }
+
+func (c *prefixHasher) ComputeHash(d []byte) hash.Hash {
+	out := (&customHasher{}).ComputeHash(d)
+	for i := 0; i < 64; i++ {
+		out[i] = byte(7*i + 1)
+	}
+	out[0] = 0x01
+	return out
+}
+func (c *prefixHasher) SumHash() hash.Hash { return c.ComputeHash(c.buf) }
+
 // Hasher returns the hasher of class cls for message name m
 func (w *World) Hasher(cls string, m string) hash.Hasher {
 	switch cls {
@@ -151,6 +167,8 @@ func (w *World) Hasher(cls string, m string) hash.Hasher {
 		return crypto.NewExpandMsgXOFKMAC128(w.Msg(m).Tag)
 	case "custom128":
 		return &customHasher{}
+	case "prefix128":
+		return &prefixHasher{}
 	case "size127":
 		return &sizedHasher{size: 127}
 	case "size129":
@@ -164,6 +182,9 @@ func (w *World) RefExpand(cls, m string) []byte {
 	md := w.Msg(m)
 	if cls == "kmac" {
 		return hashx.RefKMAC128([]byte(md.Tag+SigSuite), []byte("H2C"), md.Data, 128)
+	}
+	if cls == "prefix128" {
+		return (&prefixHasher{}).ComputeHash(md.Data)
 	}
 	return (&customHasher{}).ComputeHash(md.Data)
 }
